@@ -355,7 +355,13 @@ fn oracle_all() {
     });
     for f in results { findings.extend(f); }
     findings.sort(); findings.dedup();
-    for f in findings.iter().take(40) { println!("{}", f.chars().take(900).collect::<String>()); }
+    let mut per: BTreeMap<String, usize> = BTreeMap::new();
+    for f in findings.iter() {
+        let key: String = f.split_whitespace().nth(1).unwrap_or("").to_owned();
+        let c = per.entry(key).or_insert(0);
+        *c += 1;
+        if *c <= 6 { println!("{}", f.chars().take(900).collect::<String>()); }
+    }
     println!("ORACLE projects={} findings={} full={}", n, findings.len(), full);
     assert!(findings.is_empty(), "witness found");
 }
